@@ -100,6 +100,24 @@ pub fn reenter(call_no: usize) {
     }
 }
 
+/// `dropwait <v> <t>`: the destructor of the element with payload v, when it runs on a thread of the case, waits (a bounded
+/// number of scheduling points) until thread t has finished its program
+pub static DROPWAIT_VAL: AtomicU64 = AtomicU64::new(u64::MAX);
+pub static DROPWAIT_TID: std::sync::atomic::AtomicUsize = std::sync::atomic::AtomicUsize::new(usize::MAX);
+
+/// a thread without a program counts as finished from the start
+pub fn mark_finished(t: usize) {
+    let mut g = core();
+    if t < g.finished.len() {
+        g.finished[t] = true;
+    }
+}
+
+pub fn thread_finished(t: usize) -> bool {
+    let g = core();
+    g.finished.get(t).copied().unwrap_or(true)
+}
+
 pub static RAWSKIP: std::sync::atomic::AtomicBool = std::sync::atomic::AtomicBool::new(false);
 /// logged destructions of (non-clone) elements so far in this case, and the one that panics
 pub static DROPS: AtomicU64 = AtomicU64::new(0);
